@@ -12,7 +12,7 @@ def wait(deferred):
     # than followed forever.
     seen = []
     while isinstance(deferred, BaseDeferred):
-        if len(seen) >= 1000 or any(deferred is prev for prev in seen):
+        if len(seen) >= 64 or any(deferred is prev for prev in seen):
             raise DeferredCycle()
         seen.append(deferred)
         deferred = deferred.wait()
